@@ -56,6 +56,22 @@ func run(pass *analysis.Pass) (any, error) {
 			hasUnrelatedAssertion := false
 			var offenders []*ast.TypeAssertExpr
 			ast.Inspect(clause, func(node ast.Node) bool {
+				// The comma-ok form needs a type assertion on its right-hand side, it cannot be replaced by the
+				// variable.
+				switch node := node.(type) {
+				case *ast.AssignStmt:
+					if len(node.Lhs) == 2 && len(node.Rhs) == 1 {
+						if _, ok := ast.Unparen(node.Rhs[0]).(*ast.TypeAssertExpr); ok {
+							canSuggestFix = false
+						}
+					}
+				case *ast.ValueSpec:
+					if len(node.Names) == 2 && len(node.Values) == 1 {
+						if _, ok := ast.Unparen(node.Values[0]).(*ast.TypeAssertExpr); ok {
+							canSuggestFix = false
+						}
+					}
+				}
 				assert2, ok := node.(*ast.TypeAssertExpr)
 				if !ok {
 					return true
